@@ -76,7 +76,7 @@ def getter (which : Json) (type : VType) (name : Option Bytes) : VErr × Option 
     | none => (.none, some which)
     | some n => match which.objGet n with
       | none => (.noexist, none)
-      | some v => (.none, some v)
+      | some v => if v.isContainer then (.none, some v) else (.type, none)
   | t =>
     match nameOk name with
     | none => (.invalid, none)
